@@ -145,25 +145,46 @@ Theorem C15_text_ends_with_block : forall h c eqs,
 Proof. exact text_ends_with_block. Qed.
 Print Assumptions C15_text_ends_with_block.
 
-(* build_model: when the text executes, the class is exec(text) and CODE is that text … *)
-Theorem C15_build_model_is_exec_of_text : forall St Cls (conv : St -> symbol -> St * string) (exec : string -> exec_res Cls) st syms o h st' text c,
-  build_def St conv st syms o h = (st', POk text) -> exec text = ExecOk c ->
-  build_model_M St Cls conv exec st syms o h = (st', Built c text).
-Proof. exact build_model_is_exec_of_text. Qed.
-Print Assumptions C15_build_model_is_exec_of_text.
-(* … and in every case a returned class carries the text of build_model_definition (same arguments) as CODE *)
+(* build_model (fix 56579cc mirrored): it returns a class iff the generated text executes; the class is exec(text) and its
+   CODE is that text — for every converter, exec oracle, symbol list, options and template *)
+Theorem C15_build_model_returns_iff_text_executes :
+  forall St Cls (conv : St -> symbol -> St * string) (exec : string -> exec_res Cls) st syms o h st' c code,
+  build_model_M St Cls conv exec st syms o h = (st', Built c code) <->
+  (build_def St conv st syms o h = (st', POk code) /\ exec code = ExecOk c).
+Proof. exact build_model_returns_iff_text_executes. Qed.
+Print Assumptions C15_build_model_returns_iff_text_executes.
+
+(* a text that does not compile: BuildError (chained from the SyntaxError) whether or not a single symbol reproduces the
+   error — never a class; only an exception let through by the retry loop itself takes precedence *)
+Theorem C15_build_model_syntax_error :
+  forall St Cls (conv : St -> symbol -> St * string) (exec : string -> exec_res Cls) st syms o h st' text,
+  build_def St conv st syms o h = (st', POk text) -> exec text = ExecSyntaxError ->
+  match retry_each Cls exec syms false with
+  | inl listed => build_model_M St Cls conv exec st syms o h = (st', BuildError listed)
+  | inr e => build_model_M St Cls conv exec st syms o h = (st', BuildRaise e)
+  end.
+Proof. exact build_model_syntax_error. Qed.
+Print Assumptions C15_build_model_syntax_error.
+
+(* every outcome of build_model, by what exec says about the text *)
+Theorem C15_build_model_outcomes :
+  forall St Cls (conv : St -> symbol -> St * string) (exec : string -> exec_res Cls) st syms o h,
+  match build_def St conv st syms o h with
+  | (st', POk text) =>
+    match exec text with
+    | ExecOk c => build_model_M St Cls conv exec st syms o h = (st', Built c text)
+    | ExecOther e => build_model_M St Cls conv exec st syms o h = (st', BuildRaise e)
+    | ExecSyntaxError => (exists listed, build_model_M St Cls conv exec st syms o h = (st', BuildError listed)) \/
+                         (exists e, build_model_M St Cls conv exec st syms o h = (st', BuildRaise e))
+    end
+  | (st', PErr e) => build_model_M St Cls conv exec st syms o h = (st', BuildRaise e)
+  | (st', PUnmodelled) => build_model_M St Cls conv exec st syms o h = (st', BuildUnmodelled)
+  end.
+Proof. exact build_model_outcomes. Qed.
+Print Assumptions C15_build_model_outcomes.
+
+(* a returned class carries the text of build_model_definition (same arguments) as CODE *)
 Theorem C15_code_is_text : forall St Cls (conv : St -> symbol -> St * string) (exec : string -> exec_res Cls) st syms o h st' c code,
   build_model_M St Cls conv exec st syms o h = (st', Built c code) -> snd (build_def St conv st syms o h) = POk code.
 Proof. exact code_is_text. Qed.
 Print Assumptions C15_code_is_text.
-
-(* NEW finding: when the text does not compile (a converter with a syntax error) but every single symbol does with the
-   default converter, build_model returns the class of the LAST symbol alone and stamps the non-compiling text on it *)
-Theorem C15_build_model_is_exec_of_text_refuted :
-  exists syms c code,
-    build_model_M unit string conv_broken toy_exec tt syms default_opts true = (tt, Built c code) /\
-    snd (build_def unit conv_broken tt syms default_opts true) = POk code /\
-    toy_exec code = ExecSyntaxError /\
-    snd (build_def unit conv_default tt [sZ] default_opts true) = POk c.
-Proof. exact build_model_is_exec_of_text_refuted. Qed.
-Print Assumptions C15_build_model_is_exec_of_text_refuted.
